@@ -21,24 +21,30 @@ import (
 	"github.com/google/pprof/verif/internal/ref"
 )
 
-// Gate is a Fetcher + RoundTripper whose fetches block until the controller releases them; the
-// controller releases the members of each concurrently fetched group one at a time in a chosen
-// permutation, waiting for each fetch to complete, so the completion order is forced exactly.
+// Gate is a Fetcher + RoundTripper whose fetches block until the controller releases them. The
+// controller makes no assumption about how many fetches pprof runs at a time: it collects the
+// fetches that have arrived (until all outstanding ones have, or nothing new arrives for a short
+// while), releases them one at a time in a chosen permutation, waiting for each to complete, and
+// starts over. The completion order inside every concurrently fetched batch is thus forced.
 type Gate struct {
 	mu       sync.Mutex
 	Profiles map[string]*profile.Profile
 	Kind     map[string]string // failure kind per source ("" = good)
-	arrive   map[string]chan struct{}
 	release  map[string]chan struct{}
 	done     map[string]chan struct{}
+	arrived  chan string
+	stop     chan struct{}
+	stopOnce sync.Once
+	fetched  map[string]int
 	Events   []string // arrival / release / completion log
 }
 
 // NewGate prepares gates for the named sources.
 func NewGate(names []string) *Gate {
-	g := &Gate{Profiles: map[string]*profile.Profile{}, Kind: map[string]string{}, arrive: map[string]chan struct{}{}, release: map[string]chan struct{}{}, done: map[string]chan struct{}{}}
+	g := &Gate{Profiles: map[string]*profile.Profile{}, Kind: map[string]string{}, release: map[string]chan struct{}{}, done: map[string]chan struct{}{},
+		arrived: make(chan string, 4*len(names)+16), stop: make(chan struct{}), fetched: map[string]int{}}
 	for _, n := range names {
-		g.arrive[n], g.release[n], g.done[n] = make(chan struct{}), make(chan struct{}), make(chan struct{})
+		g.release[n], g.done[n] = make(chan struct{}), make(chan struct{})
 	}
 	return g
 }
@@ -49,11 +55,36 @@ func (g *Gate) log(s string) {
 	g.mu.Unlock()
 }
 
+// Stop ends the controller (call it when the run under test has returned).
+func (g *Gate) Stop() { g.stopOnce.Do(func() { close(g.stop) }) }
+
+// FetchCounts says how often each source was asked for.
+func (g *Gate) FetchCounts() map[string]int {
+	g.mu.Lock()
+	defer g.mu.Unlock()
+	out := map[string]int{}
+	for k, v := range g.fetched {
+		out[k] = v
+	}
+	return out
+}
+
 // Fetch implements plugin.Fetcher.
 func (g *Gate) Fetch(src string, _, _ time.Duration) (*profile.Profile, string, error) {
 	g.log("arrive " + src)
-	close(g.arrive[src])
-	<-g.release[src]
+	g.mu.Lock()
+	g.fetched[src]++
+	again := g.fetched[src] > 1
+	g.mu.Unlock()
+	if again || g.release[src] == nil {
+		return nil, "", fmt.Errorf("harness: source %s fetched more than once or not listed", src)
+	}
+	g.arrived <- src
+	select {
+	case <-g.release[src]:
+	case <-g.stop:
+		return nil, "", fmt.Errorf("harness: run ended before this fetch was released")
+	}
 	defer func() { g.log("done " + src); close(g.done[src]) }()
 	switch g.Kind[src] {
 	case "":
@@ -97,30 +128,60 @@ func (g *Gate) RoundTrip(req *http.Request) (*http.Response, error) {
 	return nil, fmt.Errorf("no route to %s", req.URL)
 }
 
-// Drive releases fetches: groups (sources, bases) progress independently; inside a group the
-// 128-source chunks are fetched one after another; each chunk's members are released in the
-// permutation produced by rng, each only after the previous one completed.
+// Drive starts the controller. groups are the lists pprof was given (sources, bases); seed
+// chooses the permutations.
 func (g *Gate) Drive(groups [][]string, seed int64) {
-	for gi, grp := range groups {
-		go func(gi int, grp []string) {
-			r := rand.New(rand.NewSource(seed + int64(gi)*7919))
-			for start := 0; start < len(grp); start += 128 {
-				end := start + 128
-				if end > len(grp) {
-					end = len(grp)
-				}
-				chunk := grp[start:end]
-				for _, s := range chunk {
-					<-g.arrive[s]
-				}
-				for _, i := range r.Perm(len(chunk)) {
-					g.log("release " + chunk[i])
-					close(g.release[chunk[i]])
-					<-g.done[chunk[i]]
+	total := 0
+	for _, grp := range groups {
+		total += len(grp)
+	}
+	go func() {
+		r := rand.New(rand.NewSource(seed))
+		released := 0
+		for released < total {
+			var batch []string
+			select {
+			case s := <-g.arrived:
+				batch = append(batch, s)
+			case <-g.stop:
+				return
+			}
+			// the rest of the batch: everything outstanding, or whatever has arrived once no
+			// new fetch shows up for a while (the quiet period only shapes which orders get
+			// explored, it decides nothing)
+			quiet := time.NewTimer(60 * time.Millisecond)
+		collect:
+			for released+len(batch) < total {
+				select {
+				case s := <-g.arrived:
+					batch = append(batch, s)
+					if !quiet.Stop() {
+						select {
+						case <-quiet.C:
+						default:
+						}
+					}
+					quiet.Reset(60 * time.Millisecond)
+				case <-quiet.C:
+					break collect
+				case <-g.stop:
+					return
 				}
 			}
-		}(gi, grp)
-	}
+			quiet.Stop()
+			sort.Strings(batch)
+			for _, i := range r.Perm(len(batch)) {
+				g.log("release " + batch[i])
+				close(g.release[batch[i]])
+				select {
+				case <-g.done[batch[i]]:
+				case <-g.stop:
+					return
+				}
+				released++
+			}
+		}
+	}()
 }
 
 var kinds = []string{"fetcher-error", "invalid-profile", "missing-file", "http-404", "http-500", "garbage-body"}
@@ -188,6 +249,7 @@ func session(c *harness.Ctx, srcs, bases []string, profs map[string]*profile.Pro
 	}
 	s := &drv.Session{Flags: &drv.Flags{Bools: map[string]bool{format: true, "functions": true, "flat": true, "trim": false}, Strs: map[string]string{"output": "out", "symbolize": "none", "sample_index": "v"}, Lists: lists, Args: srcs}, Fetch: g, RoundTr: g}
 	res := s.Run()
+	g.Stop()
 	out := ""
 	if bf := s.Writer.Files["out"]; bf != nil {
 		out = bf.String()
@@ -292,6 +354,14 @@ func run(c *harness.Ctx) harness.Result {
 		}
 		if got.pan != "" {
 			return harness.Violation("%s: panic: %s", desc, got.pan)
+		}
+		// every listed source is asked for exactly once (when the run is not abandoned early)
+		fc := gate.FetchCounts()
+		for _, name := range append(append([]string{}, srcs...), bases...) {
+			if n := fc[name]; n > 1 || (n == 0 && !mustFail) {
+				res.Verdict, res.Detail = harness.Violated, fmt.Sprintf("%s: source %s was fetched %d times (want exactly once); ui: %v", desc, name, n, trunc(got.errs))
+				return res
+			}
 		}
 		if mustFail {
 			if got.err == nil {
@@ -469,7 +539,7 @@ func init() {
 	harness.Register(&harness.Check{
 		ID:    "C16",
 		Level: "fault_enumeration",
-		Rule: "source lists of 1,2,3,5,127,128,129,256,257,300 sources (cycled) with optional 1/2/130 bases; 30% of the profiles have another set or order of sample types ([v n], [v], [x v] instead of [n v]) so that only v is common; failing subset in {none, one, first, last, all-but-one, a whole 128-chunk, all, random} x failure kind per source in {Fetcher error, structurally invalid profile, missing file, HTTP 404, HTTP 500, garbage body}; every fetch blocks at a gate and the controller releases the members of each concurrently fetched chunk one by one in a seed-chosen permutation (completion order forced exactly, no sleeps; arrival/release/completion events recorded); 3-6 different completion orders per case. " +
+		Rule: "source lists of 1,2,3,5,127,128,129,256,257,300 sources (cycled) with optional 1/2/130 bases; 30% of the profiles have another set or order of sample types ([v n], [v], [x v] instead of [n v]) so that only v is common; failing subset in {none, one, first, last, all-but-one, a whole 128-chunk, all, random} x failure kind per source in {Fetcher error, structurally invalid profile, missing file, HTTP 404, HTTP 500, garbage body}; every fetch blocks at a gate; the controller collects the fetches that have arrived (all outstanding ones, or what is there once no new one arrives for 60 ms - it assumes nothing about pprof's batch size) and releases them one by one in a seed-chosen permutation, each after the previous one completed (completion order inside every batch forced exactly; arrival/release/completion events recorded); every listed source must be asked for exactly once; 3-6 different completion orders per case. " +
 			"oracle: fails iff no source (or, with bases, no base) succeeded; exactly one UI error line per failed source naming it and none for good ones; byte-identical -traces across completion orders; -traces equal to the run listing only the successful sources; -top equal to the entry-wise signed sum of the successful profiles' reference reports. non-trivial = at least 2 sources; distinct = run description; distinct_observed = distinct release-order prefixes",
 		Assumptions:   []string{"failing subsets and kinds are enumerated per list shape; completion orders are sampled (3-6 of n! per chunk)"},
 		Parts:         []harness.Part{{Name: "fetch", Quick: 400, Thor: 12000, Run: run}},
